@@ -18,14 +18,17 @@
    the colored path only and re-assigned by every colored record, nothing is memoised, a record
    always formats a pooled COPY of the logger's attributes, the error dump depends on the
    process kind sampled at start-up.  Invariant NoLeak (MechOut = what Expect demands, for every
-   logger and record class, in every reachable state) holds for it.  The four other variants
+   logger and record class, in every reachable state) holds for it.  The five other variants
    are the sloppy disciplines the history component of the checks is built to catch on the real
    code; TLC must VIOLATE NoLeak for each of them (vacuity check of the invariant and of the
    event vocabulary: the counterexamples are exactly the shapes of history the driver covers):
      keep-restlines  the continuation lines are printed whenever present (no format test)
      memo-tags       the bracketed tag is memoised per severity; RegisterLevel does not drop it
      alias-own       a bare message formats the logger's own array and returns it to the pool
-     debug-live      the error dump follows the live debug switch instead of the process kind *)
+     debug-live      the error dump follows the live debug switch instead of the process kind
+     fg-only-close   the closing reset of a message line is written only after a foreground colour
+                     (no hidden state: the leak needs the event SetColors - a configuration neither
+                     RegisterLevel nor the built-in table produces - and a multi-line record) *)
 EXTENDS EncoderHist
 
 CONSTANT Variant
@@ -46,7 +49,7 @@ TheTag(s, sev) == CHOOSE x \in ExpTagSrc(s, sev) \ {"other"} : TRUE
 ExpLines(rec) == IF rec.fmt # "json" /\ DumpAllowed(rec) THEN "dump"
                  ELSE IF rec.fmt = "color" THEN "layout" ELSE "one"
 ExpOut(s, l, r) == LET e == Expect(s, l, r) IN
-    [lines |-> ExpLines(e.rec), tag |-> IF e.rec.fmt = "color" THEN e.tag ELSE {}, attrs |-> "own"]
+    [lines |-> ExpLines(e.rec), tag |-> IF e.rec.fmt = "color" THEN e.tag ELSE {}, attrs |-> "own", clean |-> TRUE]
 
 \* ---- what an implementation of discipline Variant produces
 MechLines(s, m, l, r) ==
@@ -61,9 +64,16 @@ MechTag(s, m, l, r) ==
     IF s.mode[l] # "color" THEN {}
     ELSE IF Variant = "memo-tags" /\ sev \in Customs /\ m.memo[sev] # "none" THEN {m.memo[sev]}
     ELSE ExpTagSrc(s, sev)
+\* every colour switched on is off again at every line break: an implementation that writes the
+\* closing reset of a message line only after a FOREGROUND leaks for a severity configured (event
+\* SetColors) without foreground but with a background / attribute, on a multi-line message
+MechClean(s, l, r) ==
+    LET lc == LcOf(s, RecClasses[r].sev) IN
+    ~(/\ Variant = "fg-only-close" /\ s.mode[l] = "color" /\ IsMulti(r)
+      /\ lc.set /\ lc.fg = "none" /\ lc.bg # "none")
 MechOut(s, m, l, r) ==
     [lines |-> MechLines(s, m, l, r), tag |-> MechTag(s, m, l, r),
-     attrs |-> IF l \in m.dirty THEN "foreign" ELSE "own"]
+     attrs |-> IF l \in m.dirty THEN "foreign" ELSE "own", clean |-> MechClean(s, l, r)]
 
 \* ---- how the hidden state moves
 MEmit(s, m, l, r) ==
@@ -89,6 +99,7 @@ MNext ==
     \/ SwitchOff /\ mech' = mech
     \/ \E w \in Widths : SetWidth(w) /\ mech' = [mech EXCEPT !.memo = NoMemo]
     \/ \E m \in MinWidths : SetMinW(m) /\ mech' = mech
+    \/ \E v \in ColSevs, f \in ColFgs, b \in ColBgs : SetColors(v, f, b) /\ mech' = mech
 
 MSpec == MInit /\ [][MNext]_mvars
 
@@ -96,5 +107,5 @@ MSpec == MInit /\ [][MNext]_mvars
 \* class what the statements demand in the current visible configuration
 NoLeak == \A l \in Loggers, r \in RcIds :
             LET m == MechOut(st, mech, l, r)  e == ExpOut(st, l, r)
-            IN m.lines = e.lines /\ m.attrs = e.attrs /\ m.tag \subseteq e.tag
+            IN m.lines = e.lines /\ m.attrs = e.attrs /\ m.tag \subseteq e.tag /\ m.clean = e.clean
 =============================================================================
